@@ -101,6 +101,14 @@ def call(case, grid, ds, nm, lazy):
         axd = next(x for x in case["grid"]["axes"] if x["name"] == a["axis"][0])
         dim = operated_dim(case)
         core_chunked = len(chunks[nm(dim)]) > 1
+        if case.get("decorated"):
+            # the dask options are bound when the ufunc is defined and not repeated at the call
+            from xgcm.grid_ufunc import as_grid_ufunc
+
+            gu = as_grid_ufunc(signature="(X:center)->(X:center)", boundary_width={"X": tuple(case.get("bw", (1, 1)))},
+                               dask="allowed" if core_chunked else "parallelized",
+                               map_overlap=bool(case["map_overlap"]) and lazy and core_chunked)(user_stencil)
+            return gu(grid, da, axis=[(axis[0],)], **{k: v for k, v in kw.items() if k != "to"})
         return grid.apply_as_grid_ufunc(user_stencil, da, axis=[(axis[0],)], signature="(X:center)->(X:center)",
                                         boundary_width={"X": tuple(case.get("bw", (1, 1)))},
                                         dask="allowed" if core_chunked else "parallelized",
@@ -211,7 +219,8 @@ def gen_cases(rng, thorough):
         for spec in chunk_variants(rng, b, dim, nsample=1):
             core_chunked = len(dict((d, c) for d, c in spec)[dim]) > 1
             # map_overlap is meant for data chunked along the core dimension; without it only other dims are chunked
-            cases += with_chunks(rng, b, "ufunc", [spec], map_overlap=core_chunked, bw=rng.choice([[1, 1], [1, 1], [2, 0], [0, 2]]))
+            cases += with_chunks(rng, b, "ufunc", [spec], map_overlap=core_chunked, bw=rng.choice([[1, 1], [1, 1], [2, 0], [0, 2]]),
+                                 decorated=rng.random() < 0.4)
     # face-connected grids chunked over the face and extra dims (never the two spatial dims)
     for _ in range(nbase):
         vec = rng.random() < 0.4
